@@ -2,6 +2,8 @@
 from __future__ import annotations
 
 import itertools
+import json
+import os
 import re
 
 from common import call, chunks, enc, gen, rng_of, vlib
@@ -56,6 +58,51 @@ def atoms_defined(p, x) -> bool:
             return False
         return atoms_defined(p.predicate, y)
     return call(p, x)[0] == "ok"
+
+
+LISTED_DIR = os.path.join(os.path.dirname(os.path.abspath(__file__)), "listed")
+
+
+def skey(p):
+    """canonical, parenthesised text of a predicate built from the generators' atoms (None when it holds an object
+    without a stable name, e.g. an anonymous lambda): the identity under which failing inputs are LISTED"""
+    import dataclasses
+    if isinstance(p, NamedPredicate):
+        return f"(var {p.name})"
+    if isinstance(p, PP.FnPredicate):
+        n = getattr(p.predicate_fn, "__name__", "")
+        return f"(fn {n})" if n.startswith("fnlib") else None
+    parts = [type(p).__name__]
+    if not dataclasses.is_dataclass(p):
+        return None
+    for f in dataclasses.fields(p):
+        v = getattr(p, f.name)
+        if isinstance(v, PP.Predicate):
+            k = skey(v)
+            if k is None:
+                return None
+            parts.append(k)
+        elif isinstance(v, (set, frozenset)):
+            parts.append("{" + ",".join(sorted(repr(e) for e in v)) + "}")
+        elif isinstance(v, tuple) and all(isinstance(e, type) for e in v):
+            parts.append("<" + ",".join(e.__name__ for e in v) + ">")
+        elif callable(v) and not isinstance(v, type):
+            n = getattr(v, "__name__", "")
+            if not n.startswith(("fnlib", "complib")):
+                return None
+            parts.append(n)
+        else:
+            parts.append(repr(v))
+    return "(" + " ".join(parts) + ")"
+
+
+def load_listed(pid):
+    """{key: [finding ids]}: the members of the property's deterministic input family that fail on the reviewed tree, each
+    attributed to listed findings (committed file, written only by tools/mklisted.py, never at check time)"""
+    path = os.path.join(LISTED_DIR, pid + ".json")
+    if not os.path.exists(path):
+        return None
+    return json.load(open(path))["failing"]
 
 
 def model_run(trees, results, name):
@@ -116,12 +163,17 @@ def correspondence(trees, label, rule):
             "skipped": skipped, "known_site_hits": {str(k): v for k, v in sorted(sites.items())}, "mismatches": mism[:20]}
 
 
-def search(trees, points, pid, payload, assignments=False):
-    """implementation-side test of the property's statement; failures are attributed to known findings
-    through the model's taint trace"""
+def search(trees, points, pid, payload, assignments=False, family=None):
+    """implementation-side test of the property's statement.  A failing input that belongs to the property's deterministic
+    FAMILY (family[i] true) is a known finding only if its key is LISTED in tools/props/listed/<pid>.json; any other
+    family member that fails is a new violation even when it fails through a listed rule site (a new way into a listed
+    defect is a different failing input).  Failures outside the family (seeded random trees) are attributed through the
+    model's taint trace."""
     fails = []
+    listed = load_listed(pid) if family is not None else None
+    listed_hits, unlisted = [], []
     n = 0
-    for p in trees:
+    for i, p in enumerate(trees):
         try:
             q = optimize(p)
         except Exception as e:  # noqa: BLE001
@@ -146,9 +198,18 @@ def search(trees, points, pid, payload, assignments=False):
                 kq, rq = call(q, x)
             n += 1
             if kq != "ok" or bool(rq) != bool(rp):
-                fails.append({"p": p, "q": q, "x": x, "orig": rp, "opt": (rq if kq == "ok" else f"raises {rq}")})
+                f = {"p": p, "q": q, "x": x, "orig": rp, "opt": (rq if kq == "ok" else f"raises {rq}")}
+                key = skey(p) if (listed is not None and family[i]) else None
+                if key is not None and key in listed and set(listed[key]) <= {k["id"] for k in vlib.load_known().get("findings", []) if pid in k.get("properties", [])}:
+                    listed_hits.append((f, listed[key]))
+                elif key is not None:
+                    f["unlisted_family_member"] = key
+                    unlisted.append(f)
+                    fails.append(f)
+                else:
+                    fails.append(f)
                 break
-        if len(fails) >= 40:
+        if len(fails) >= 300:
             break
     new, known_hits = [], []
     known_ids = {k["id"] for k in vlib.load_known().get("findings", []) if pid in k.get("properties", [])}
@@ -163,7 +224,13 @@ def search(trees, points, pid, payload, assignments=False):
             tr = rows[i][1:] if rows else []
             rec = {"p": repr(f["p"]), "optimized": repr(f["q"]), "x": repr(f["x"]), "original_answer": repr(f["orig"]),
                    "optimized_answer": repr(f["opt"]), "model_trace": tr}
-            if rows and tr and set(tr) <= known_ids:
+            if "unlisted_family_member" in f:
+                rec["note"] = ("this member of the deterministic input family fails but is not among the failing inputs listed in "
+                               f"tools/props/listed/{pid}.json" + (f" (it fails through listed rule site(s) {sorted(set(tr))}: a new way into a "
+                               "listed defect)" if tr and set(tr) <= known_ids else ""))
+                rec["family_key"] = f["unlisted_family_member"]
+                new.append(rec)
+            elif rows and tr and set(tr) <= known_ids:
                 known_hits += [{"id": s, "p": rec["p"]} for s in set(tr)]
             else:
                 new.append(rec)
@@ -174,13 +241,16 @@ def search(trees, points, pid, payload, assignments=False):
         # the model is unavailable, so failures cannot be attributed through its trace: a failing tree that contains the
         # operand shape of a listed finding is not reported as a new failing input
         for f in fails:
-            if not could_be_known(f["p"], pid):
+            if "unlisted_family_member" in f or not could_be_known(f["p"], pid):
                 new.append({"p": repr(f["p"]), "optimized": repr(f["q"]), "x": repr(f["x"]), "original_answer": repr(f["orig"]),
                             "optimized_answer": repr(f["opt"]), "note": "model unavailable: attributed by shape only"})
+    for f, ids in listed_hits:
+        known_hits += [{"id": s, "p": repr(f["p"]), "listed": True} for s in ids if s in known_ids]
     for k in vlib.load_known().get("findings", []):
         if pid in k.get("properties", []) and witness_fails(k):
             known_hits.append({"id": k["id"], "p": k["witness"]["expr"], "witness": True})
-    return {"evaluations": n, "failures": new[:10], "known_hits": known_hits,
+    return {"evaluations": n, "failures": new[:10], "known_hits": known_hits[:60], "listed_family_failures": len(listed_hits),
+            "family_members": (sum(1 for x in family if x) if family is not None else 0),
             "samples": [{"p": repr(trees[0]), "x": repr(points[0] if points else None)}] if trees else []}
 
 
